@@ -469,6 +469,18 @@ func buildContractState(tx UpdateStateTx, fces []consensus.FileContractElementDi
 			continue
 		}
 
+		// a resolved contract is successful when it was proven or when the
+		// missed resolution pays the host in full
+		recordResolution := func() {
+			successful := valid || fce.FileContract.MissedHostPayout().Cmp(fce.FileContract.ValidHostPayout()) >= 0
+			if successful {
+				state.Successful = append(state.Successful, types.FileContractID(fce.ID))
+			} else {
+				state.Failed = append(state.Failed, types.FileContractID(fce.ID))
+			}
+			log.Debug("resolved contract", zap.Bool("valid", valid), zap.Bool("successful", successful))
+		}
+
 		switch {
 		case created:
 			state.Confirmed = append(state.Confirmed, fce)
@@ -483,6 +495,12 @@ func buildContractState(tx UpdateStateTx, fces []consensus.FileContractElementDi
 				ID:           fce.ID,
 				FileContract: fc,
 			})
+			// a contract whose formation is confirmed in the block at its
+			// window start can be proven in that very block, the diff then
+			// carries the creation and the resolution
+			if resolved {
+				recordResolution()
+			}
 		case rev != nil:
 			if revert {
 				state.Revised = append(state.Revised, RevisedContract{
@@ -497,22 +515,14 @@ func buildContractState(tx UpdateStateTx, fces []consensus.FileContractElementDi
 				})
 				log.Debug("revised contract", zap.Uint64("current", fce.FileContract.RevisionNumber), zap.Uint64("revised", rev.RevisionNumber))
 			}
-			if !resolved {
-				break
-			}
 			// a contract can be revised and proven in the same block (the
 			// block at its window start), the diff then carries both the
 			// revision and the resolution
-			fallthrough
-		case resolved:
-			// a missed resolution that pays the host in full is successful
-			successful := valid || fce.FileContract.MissedHostPayout().Cmp(fce.FileContract.ValidHostPayout()) >= 0
-			if successful {
-				state.Successful = append(state.Successful, types.FileContractID(fce.ID))
-			} else {
-				state.Failed = append(state.Failed, types.FileContractID(fce.ID))
+			if resolved {
+				recordResolution()
 			}
-			log.Debug("resolved contract", zap.Bool("valid", valid), zap.Bool("successful", successful))
+		case resolved:
+			recordResolution()
 		default:
 			return StateChanges{}, fmt.Errorf("unexpected contract state (resolved: %v) (valid: %v) (created: %v) (revised: %v) (contractID: %v)", resolved, valid, created, rev != nil, fce.ID)
 		}
